@@ -32,7 +32,9 @@ RULE = ("cases = (2-4 datasets created in index order with the main dataset at a
         "dependency entity connected to 3-4 main entities (fan-out > batch size) touched once, the sink failing at call 0..3, job "
         "restarted to the fixpoint; and a scripted write to the dependency dataset from inside the sink callback after call k of a "
         "multi-page full sync, then runs to the fixpoint; and LatestOnly sources whose look-back entry (the change at token - 1) is "
-        "superseded by a rewiring / unlinking / deletion of the same dependency entity (outgoing first hop); a case is non-trivial when an "
+        "superseded by a rewiring / unlinking / deletion of the same dependency entity (outgoing first hop); 3-hop paths that stay "
+        "in one dataset (hierarchies: the same entity on several join levels); 2-3 dependencies on distinct datasets with a "
+        "scripted write into a dependency dataset from inside the sink callback of an INCREMENTAL run; a case is non-trivial when an "
         "incremental run delivered entities found through a dependency or a scripted failure fired; distinct = distinct case tuples")
 TRUSTED = [
     "Store.GetRelatedAtTime (with its continuation paging at limit = batch size) is specified, not modelled: related(e) at instant t "
@@ -50,7 +52,8 @@ TRUSTED = [
 ASSUMPTIONS = [
     "batch size >= 1 (the scheduler replaces batchSize < 1 by 10000)",
     "no writes while a run is in progress, except one scripted write to a non-main dataset between two sink calls of a full "
-    "sync (ORunMid; covered by the theorems); writes during incremental runs are not modelled",
+    "sync (ORunMid; covered by the theorems) or of an incremental run (ORunMidInc: modelled for dependencies on pairwise "
+    "distinct datasets and compared with the implementation, outside the completeness theorems)",
     "all datasets exist before the first run and are local (no proxy datasets); the job configuration does not change between runs",
     "C18_tokens_safe / C18_complete are stated for LatestOnly = false; LatestOnly sources are covered by C18_*_latest under the "
     "fourth repair (finding F18d: with LatestOnly the pinned tree AND the three repairs alone lose previous-run links)",
@@ -127,6 +130,14 @@ def witness_cases():
         mk(2, 0, [D(1, J(0, 1, False))],
            [W(0, [(1, [], 0), (2, [], 0), (3, [], 0)]), W(1, [(11, [(1, 1)], 0)]), R(), W(1, [(11, [(1, 2)], 0)]),
             R(fix=True)], batch=2, latest=True),
+        # plain behaviour: a hierarchy in one dataset, the same entity on two join levels (office <- person <- person <- person)
+        mk(2, 0, [D(1, J(0, 1, True), J(0, 2, True), J(0, 2, True))],
+           [W(0, [(3, [(1, 11)], 0), (2, [(1, 11), (2, 3)], 0), (1, [(2, 2)], 0), (4, [(2, 1)], 0)]), W(1, [(11, [], 0)]),
+            R(), W(1, [(11, [], 0)]), R(fix=True)], batch=4),
+        # plain behaviour: a write to the second dependency's dataset from inside the first dependency's batch callback
+        mk(3, 0, [D(1, J(0, 1, True)), D(2, J(0, 2, False))],
+           [W(0, [(1, [(1, 11)], 0), (2, [], 0)]), W(1, [(11, [], 0)]), W(2, [(21, [], 0)]), R(),
+            W(1, [(11, [], 0)]), R(mid=(0, 2, [(22, [(2, 2)], 0)])), R(fix=True)], batch=2),
         # plain behaviour: fan-out 3 > batch 1, sink fails at its 2nd call, restart
         mk(2, 0, [D(1, J(0, 1, True))],
            [W(0, [(1, [(1, 11)], 0), (2, [(1, 11)], 0), (3, [(1, 11)], 0)]), W(1, [(11, [], 0)]), R(),
@@ -315,15 +326,103 @@ def lookback_case(rng):
     return mk(nds, 0, deps, ops, batch=rng.choice([1, 2, 3, 4]), latest=not rng.chance(1, 5))
 
 
+def chain_case(rng):
+    """join paths of 3 hops that stay in ONE dataset after the first hop (a hierarchy: office <- works-at - person
+    <- manager - person <- manager - person), each hop with its own direction, so that the same entity sits on
+    several join levels; the dependency entity is touched, then runs to the fixpoint"""
+    pw, pm = 1, 2
+    inv1, inv2, inv3 = rng.chance(2, 3), rng.chance(2, 3), rng.chance(2, 3)
+    same_pred = rng.chance(3, 4)
+    deps = [D(1, J(0, pw, inv1), J(0, pm, inv2), J(0, pm if same_pred else 3, inv3))]
+    people = [1, 2, 3, 4]
+    pm3 = pm if same_pred else 3
+
+    def person(i):
+        refs = []
+        if inv1 and rng.chance(1, 2):
+            refs.append((pw, 11))
+        # a manager-like chain: i -> i-1 (mostly), sometimes another one
+        for (pp, inv) in ((pm, inv2), (pm3, inv3)):
+            if rng.chance(3, 4):
+                t = (i - 1) if (inv and i > 1 and rng.chance(3, 4)) else rng.choice(people)
+                if not inv and rng.chance(3, 4) and i < 4:
+                    t = i + 1
+                if t != i and (pp, t) not in refs:
+                    refs.append((pp, t))
+        return (i, refs, 0)
+
+    def office():
+        refs = []
+        if not inv1:
+            for t in people:
+                if rng.chance(1, 2):
+                    refs.append((pw, t))
+        return (11, refs, 0)
+    ops = [W(0, [person(i) for i in people]), W(1, [office()]), R()]
+    for _ in range(rng.range(1, 2)):
+        if rng.chance(1, 3):
+            ops.append(W(0, [person(rng.choice(people))]))
+        ops.append(W(1, [office()]))
+        ops.append(R(fix=True))
+    return mk(2, 0, deps, ops, batch=rng.choice([1, 2, 3, 4]), latest=False)
+
+
+def midinc_case(rng):
+    """two or three one-hop dependencies on pairwise distinct datasets; during an incremental run a write lands in a
+    dependency dataset from inside the sink callback (after call k): a new / rewired entity carrying a link to a
+    main entity; then runs to the fixpoint"""
+    ndep = rng.choice([2, 2, 3])
+    nds = ndep + 1
+    deps = [D(k, J(0, k, rng.chance(1, 2))) for k in range(1, ndep + 1)]
+    rl = roles(deps)
+    mains = [1, 2, 3]
+
+    def main_ent(i):
+        refs = []
+        for d in deps:
+            if d["joins"][0]["inv"] and rng.chance(1, 2):
+                refs.append((d["joins"][0]["pred"], rng.choice(ids_of(d["ds"])[:2])))
+        return (i, refs, 0)
+
+    def dep_ent(k, i, must_link=False):
+        d = deps[k - 1]
+        refs = []
+        if not d["joins"][0]["inv"]:
+            for t in mains:
+                if rng.chance(1, 3):
+                    refs.append((d["joins"][0]["pred"], t))
+            if must_link and not refs:
+                refs.append((d["joins"][0]["pred"], rng.choice(mains)))
+        return (i, refs, 0)
+    ops = [W(0, [main_ent(i) for i in mains])]
+    for k in range(1, ndep + 1):
+        ops.append(W(k, [dep_ent(k, 10 * k + 1)]))
+    ops.append(R())
+    # pending changes in the first dependencies so that their batches run the callback
+    for k in range(1, ndep + 1):
+        if k == 1 or rng.chance(1, 2):
+            ops.append(W(k, [dep_ent(k, 10 * k + 1, must_link=(k == 1))]))
+    if rng.chance(1, 3):
+        ops.append(W(0, [main_ent(rng.choice(mains))]))
+    wk = rng.choice(list(range(1, ndep + 1)) + [ndep, ndep])
+    ment = dep_ent(wk, 10 * wk + rng.choice([1, 2]), must_link=True)
+    ops.append(R(fail=rng.choice([-1, -1, -1, 2]), mid=(rng.choice([0, 0, 0, 1, 2]), wk, [ment])))
+    ops.append(R(fix=True))
+    return mk(nds, 0, deps, ops, batch=rng.choice([1, 2, 3, 4]), latest=False)
+
+
 def gen(rng, tier):
     if tier == "quick":
-        return ([rand_case(rng) for _ in range(120)] + [fanout_case(rng) for _ in range(25)]
-                + [midfull_case(rng) for _ in range(25)] + [lookback_case(rng) for _ in range(30)])
+        return ([rand_case(rng) for _ in range(100)] + [fanout_case(rng) for _ in range(25)]
+                + [midfull_case(rng) for _ in range(25)] + [lookback_case(rng) for _ in range(30)]
+                + [chain_case(rng) for _ in range(30)] + [midinc_case(rng) for _ in range(30)])
     if tier == "search":
-        return ([rand_case(rng, 14) for _ in range(180)] + [fanout_case(rng) for _ in range(50)]
-                + [midfull_case(rng) for _ in range(50)] + [lookback_case(rng) for _ in range(80)])
-    return ([rand_case(rng, 16) for _ in range(2100)] + [fanout_case(rng) for _ in range(300)]
-            + [midfull_case(rng) for _ in range(300)] + [lookback_case(rng) for _ in range(400)])
+        return ([rand_case(rng, 14) for _ in range(150)] + [fanout_case(rng) for _ in range(40)]
+                + [midfull_case(rng) for _ in range(40)] + [lookback_case(rng) for _ in range(60)]
+                + [chain_case(rng) for _ in range(80)] + [midinc_case(rng) for _ in range(80)])
+    return ([rand_case(rng, 16) for _ in range(1900)] + [fanout_case(rng) for _ in range(300)]
+            + [midfull_case(rng) for _ in range(300)] + [lookback_case(rng) for _ in range(400)]
+            + [chain_case(rng) for _ in range(400)] + [midinc_case(rng) for _ in range(400)])
 
 
 def run(binp, cases):
@@ -525,6 +624,7 @@ def tags(c, o):
     for d in c["deps"]:
         t.append("shape=" + "".join("i" if j["inv"] else "o" for j in d["joins"]))
     for op, rs in zip([op for op in c["ops"] if op["op"] == "run"], o.get("runs") or []):
-        kind = "fix" if op.get("fix") else (("full+write" if op.get("mid") else "full") if op.get("full") else "incr")
+        kind = "fix" if op.get("fix") else (("full+write" if op.get("mid") else "full") if op.get("full")
+                                            else ("incr+write" if op.get("mid") else "incr"))
         t.append("run=%s/%s" % (kind, "fail" if any(r.get("outcome") != "ok" for r in rs) else "ok"))
     return sorted(set(t))
